@@ -126,9 +126,11 @@ def assignments(draw):
     if draw(st.booleans()):
         chosen.append("BunchCurrent") if "BunchCurrent" not in chosen else None
     cli, fil = {}, {}
+    # one assignment in five comes from the command line alone (no parent config file at all: '-c /dev/null')
+    cli_only = draw(st.integers(0, 4)) == 0
     for n in chosen:
         v = draw(O.value_strategy(n))
-        src = draw(st.sampled_from(["cli", "file", "both"]))
+        src = "cli" if cli_only else draw(st.sampled_from(["cli", "file", "both"]))
         if n == "run_anyway":
             continue
         if src in ("cli", "both"):
@@ -143,7 +145,7 @@ def assignments(draw):
             else:
                 fil[n] = v2
     for n in O.IGNORED:
-        if draw(st.integers(0, 9)) == 0:
+        if not cli_only and draw(st.integers(0, 9)) == 0:
             fil[n] = draw(O.value_strategy(n))
     c = dict(cli=cli, file=fil)
     if fil and draw(st.integers(0, 3)) == 0:
